@@ -120,7 +120,7 @@ def _configs(tier, salts):
                     two = all(t[3].startswith("two") for t in (a, b, c))
                     for sc in ([False, True] if two else [False]):
                         out.append((_mk("rosen3", 3, [a, b, c], mode, sc, salt, maxfun=70), {"depth": 0}))
-        if salt == 0 or tier == "thorough":
+        if salt == 0 or (tier == "thorough" and salt == 1):
             e = [0.0, 1e-3, -7e-4, 3e-3, 1.3e-3, -2.1e-3, 5e-4, -1e-3][salt % 8]
             for name, cfg in cfgs.broad_cfgs(salt=salt, budgets=(30, 70), reg_budgets=(10,)):
                 if cfg.get("lo") is None and cfg.get("hi") is None and not cfg.get("sets") and cfg.get("rhobeg", 0.3) <= 0.6:
